@@ -57,7 +57,7 @@ func (q *quick) tighten(vi *varInfo, v *term) {
 		vi.pinned, vi.val = true, uint64(vi.lo)
 		return
 	}
-	if vi.hi-vi.lo < 64 {
+	if vi.hi >= vi.lo && uint64(vi.hi)-uint64(vi.lo) < 64 {
 		n, last := 0, int64(0)
 		for x := vi.lo; x <= vi.hi; x++ {
 			if !vi.excl[uint64(x)] {
